@@ -5,18 +5,20 @@ from . import common
 from . import stft_common as sc
 
 PROP = "C02"
-MODULES = ["PdsVerif.Props.StftTie", "PdsVerif.Props.FrameCoeffTie", "PdsVerif.Props.C02"]
+MODULES = ["PdsVerif.Props.StftTie", "PdsVerif.Props.FrameCoeffTie", "PdsVerif.Props.DftSizeTie", "PdsVerif.Props.C02"]
 MODEL_MODULES = ["PdsVerif.Model.StftDrv"]
 REQUIRED = ["PdsVerif.StftTie." + n for n in ["full_pad_left_eq", "full_short_eq", "full_num_frames_eq", "full_pad_right_eq", "fin_pad_left_eq", "fin_num_frames_eq", "chunk_frame_length_eq", "chunk_num_frames_eq", "chunk_first_pad_eq", "torch_arith_eq_numpy", "torch_no_frame_eq"]] + ["PdsVerif.FrameCoeffTie." + n for n in ["np_nonlin_append", "np_loop_eq", "np_finish_spec", "coeff_eq_spec", "np_energy_spec", "torch_energy_eq_np", "torch_coeff_eq_np"]] + ["PdsVerif.C02." + n for n in [
     "full_short", "full_count", "full_frame_spec", "full_frames_length", "frame_origin", "walk_covers",
-    "walk_idx_in_range", "walk_bins_distinct", "full_spectrum_sum", "walk_sum_eq_full_spectrum", "read_eq_full_bin", "coefficient_eq_full_dft_sum", "stft_coefficient_spec", "rebuilt_ne_zero", "real_full_spectrum_eq_twice_half", "walk_real_within_half", "real_doubling", "default_len_bin"]]
+    "walk_idx_in_range", "walk_bins_distinct", "full_spectrum_sum", "walk_sum_eq_full_spectrum", "read_eq_full_bin", "coefficient_eq_full_dft_sum", "stft_coefficient_spec", "rebuilt_ne_zero", "real_full_spectrum_eq_twice_half", "walk_real_within_half", "real_doubling", "default_len_bin"]] + ["PdsVerif.DftSizeTie." + n for n in ["stft_dft_size_padded", "stft_dft_size_unpadded", "pow2_clog_least", "stft_dft_size_pow2", "stft_dft_size_ge", "si_dft_size_spec", "si_dft_size_ge"]]
 
 def translate(repo):
     """framing arithmetic of compute.py / torch.py -> Generated/StftConsts.lean (theorems: Props/StftTie.lean);
     real-valued tail of the coefficient computation -> Generated/FrameCoeff.lean (theorems: Props/FrameCoeffTie.lean)"""
-    from .translate import stftconsts, framecoeff
+    from .translate import stftconsts, framecoeff, dftsize
     files = dict(stftconsts.generate(repo))
     files.update(framecoeff.generate(repo))
+    # the DFT size rule of the constructors -> Generated/DftSize.lean (theorems: Props/DftSizeTie.lean)
+    files.update(dftsize.generate(repo))
     return files
 
 
